@@ -88,10 +88,62 @@ def gen_f1(rng, force=None):
                 acts.append({"t": "hook", "name": r.choice(hooks[:3])})
         return acts
 
+    def simple_body(avoid):
+        """closed matches + actions for clause / optional bodies (no nested blocks)"""
+        b = []
+        for _ in range(r.choice((0, 1, 1, 2))):
+            if r.random() < 0.5:
+                b.append(lit(avoid))
+            else:
+                lo, hi = r.choice(pools)
+                b.append({"t": "fixed", "cls": [lo, hi], "n": r.choice((1, 2)), "dest": r.choice(strs)["name"] if strs and r.random() < 0.5 else None})
+            b += actions(r.choice((0, 1)))
+        return b
+
+    def distinct_lits(n, avoid=()):
+        firsts = set(avoid)
+        out_l = []
+        for _ in range(n):
+            for _ in range(30):
+                l = lit(firsts)
+                l["ci"] = False
+                l["bin"] = False
+                if l["bytes"][0] not in firsts:
+                    break
+            firsts.add(l["bytes"][0])
+            out_l.append(l)
+        return out_l, firsts
+
+    def block_item():
+        """LL(1) blocks: optional / case [else] / dispatch loop; each followed by a closed literal"""
+        kind = r.choice(("opt", "case", "case-else", "loopcase"))
+        if kind == "opt":
+            (l0, follow), firsts = distinct_lits(2)
+            return [{"t": "opt", "body": [l0] + actions(r.choice((0, 1))) + simple_body(())}, follow]
+        if kind in ("case", "case-else"):
+            n = r.choice((2, 3))
+            ls, firsts = distinct_lits(n + 1)
+            follow = ls.pop()
+            clauses = [{"label": l, "body": actions(r.choice((0, 1, 1))) + simple_body(())} for l in ls]
+            els = None
+            if kind == "case-else":
+                els = [a for a in actions(r.choice((0, 1, 2))) if a["t"] != "yield"]
+            return [{"t": "case", "clauses": clauses, "else": els}, follow]
+        n = r.choice((1, 2, 3))
+        ls, firsts = distinct_lits(n + 1)
+        brk = ls.pop()
+        clauses = [{"label": l, "body": actions(r.choice((0, 1, 1))) + simple_body(())} for l in ls]
+        return [{"t": "loopcase", "clauses": clauses, "brk": brk, "brk_actions": [a for a in actions(r.choice((0, 1))) if a["t"] != "yield"]}]
+
     def segment():
         """a few match items, each possibly followed by actions; always ends with a closed match"""
         seg = []
         for _ in range(r.choice((1, 2, 3))):
+            k = r.random()
+            if force.get("blocks", True) and k < 0.22:
+                seg += block_item()
+                seg += actions(r.choice((0, 0, 1)))
+                continue
             k = r.random()
             if k < 0.35:
                 seg.append(lit())
@@ -126,6 +178,12 @@ def gen_f1(rng, force=None):
         items.append({"t": "try", "kinds": ["nomatch", "oos"], "body": body, "handler": {"t": "wait", "hook": "bad", "term": r.choice(PUN)}})
     if r.random() < 0.6:
         items += segment()
+    if ycodes and r.random() < 0.3:
+        # a yield as the very last statement: the yielding transition leads straight to the accept state
+        if items[-1]["t"] in ("hook", "inc", "setb", "del"):
+            items.append({"t": "yield", "code": r.choice(ycodes)})
+        elif items[-1]["t"] in ("lit", "fixed"):
+            items.append({"t": "yield", "code": r.choice(ycodes)})
     # the program must end with a closed match before the tail (no open field last)
     tail_kind = force.get("tail", r.choice(("done", "done", "finish", "finishcode", "end", "end")))
     tail = {"kind": tail_kind, "actions": [], "code": None}
@@ -174,6 +232,36 @@ def render_item(it, ind):
         return [p + "delete %s;" % it["dest"]]
     if t == "yield":
         return [p + "yield %s;" % it["code"]]
+    if t == "opt":
+        L = [p + "optional {"]
+        for x in it["body"]:
+            L += render_item(x, ind + 1)
+        return L + [p + "}"]
+    if t == "case":
+        L = [p + "case {"]
+        for c in it["clauses"]:
+            L.append(p + "    " + render_item(c["label"], 0)[0].rstrip(";") + " -> {")
+            for x in c["body"]:
+                L += render_item(x, ind + 2)
+            L.append(p + "    }")
+        if it["else"] is not None:
+            L.append(p + "    else -> {")
+            for x in it["else"]:
+                L += render_item(x, ind + 2)
+            L.append(p + "    }")
+        return L + [p + "}"]
+    if t == "loopcase":
+        L = [p + "loop {", p + "    case {"]
+        for c in it["clauses"]:
+            L.append(p + "        " + render_item(c["label"], 0)[0].rstrip(";") + " -> {")
+            for x in c["body"]:
+                L += render_item(x, ind + 3)
+            L.append(p + "        }")
+        L.append(p + "        " + render_item(it["brk"], 0)[0].rstrip(";") + " -> {")
+        for x in it["brk_actions"]:
+            L += render_item(x, ind + 3)
+        L += [p + "            break;", p + "        }", p + "    }", p + "}"]
+        return L
     if t == "try":
         L = [p + "try {"]
         for x in it["body"]:
@@ -353,6 +441,55 @@ class F1Model:
             self.silent_since = True
         elif t == "yield":
             self.emit("yield", it["code"])
+        elif t == "opt":
+            c = self.peek(("opt", 0))
+            if c == it["body"][0]["bytes"][0]:
+                for x in it["body"]:
+                    self.run_item(x)
+        elif t == "case":
+            c = self.peek(("case", 0))
+            chosen = None
+            for cl in it["clauses"]:
+                if cl["label"]["bytes"][0] == c:
+                    chosen = cl
+            took_else = False
+            if chosen is not None:
+                # the else clause is taken as soon as the input stops being a prefix of every label,
+                # also in the middle of a label; its body starts at the offending byte
+                for j, b in enumerate(chosen["label"]["bytes"]):
+                    c = self.peek(("case", j))
+                    if c != b:
+                        if it["else"] is None:
+                            self.error("nomatch")
+                        took_else = True
+                        break
+                    self.consume()
+                if not took_else:
+                    for x in chosen["body"]:
+                        self.run_item(x)
+            else:
+                if it["else"] is None:
+                    self.error("nomatch")
+                took_else = True
+            if took_else:
+                for x in it["else"]:
+                    self.run_item(x)
+        elif t == "loopcase":
+            while True:
+                c = self.peek(("loopcase", 0))
+                if c == it["brk"]["bytes"][0]:
+                    self.run_item(it["brk"])
+                    for x in it["brk_actions"]:
+                        self.run_item(x)
+                    break
+                for cl in it["clauses"]:
+                    if cl["label"]["bytes"][0] == c:
+                        self.run_item(cl["label"])
+                        for x in cl["body"]:
+                            self.run_item(x)
+                        break
+                else:
+                    self.error("nomatch")
         elif t == "try":
             try:
                 self.in_try.append(it)
@@ -440,6 +577,8 @@ class F1Model:
                 m.run_item(a)
             code = "FINISH_" + t["code"] if t["code"] else "DONE"
             return (code, m.events, pending)
+        if w[0] in ("opt", "case", "loopcase"):
+            return None     # EOF at a decision point: not decided by the model
         if w[0] == "wait":
             # EOF during a wait does not enter an enclosing handler
             return ("FAIL", ("NOHANDLER", [h for h in getattr(self, "where_handlers", []) if h]))
@@ -646,6 +785,19 @@ def f1_inputs(rng, spec, count):
             return junk + bytes(it["bytes"])
         if t == "try":
             return b"".join(sample(x, stress) for x in it["body"])
+        if t == "opt":
+            return b"".join(sample(x, stress) for x in it["body"]) if rng.random() < 0.6 else b""
+        if t == "case":
+            if it["else"] is not None and rng.random() < 0.3:
+                return b""
+            cl = rng.choice(it["clauses"])
+            return sample(cl["label"], stress) + b"".join(sample(x, stress) for x in cl["body"])
+        if t == "loopcase":
+            out_b = b""
+            for _ in range(rng.choice((0, 1, 2, 4))):
+                cl = rng.choice(it["clauses"])
+                out_b += sample(cl["label"], stress) + b"".join(sample(x, stress) for x in cl["body"])
+            return out_b + sample(it["brk"], stress)
         return b""
     res = []
     for k in range(count):
@@ -817,8 +969,19 @@ F3_ANY = [("/./", "wild"), ("/[^x]/", "inv"), ("/\\W/", "W"), ("/\\D/", "D"), ("
 
 def gen_f3(rng):
     r = rng
-    shape = r.choice(("records", "sep", "endelse", "tryend", "tryend", "waitend", "waitend"))
+    shape = r.choice(("records", "sep", "endelse", "tryend", "tryend", "waitend", "waitend", "endopt", "endopt"))
     spec = {"family": "F3", "shape": shape}
+    if shape == "endopt":
+        # an `end` pattern followed by something that may match nothing: the accept state still has live transitions
+        pre = [r.choice(LET)] + [r.choice(LET) for _ in range(r.choice((0, 1)))]
+        spec["pre"] = pre
+        spec["tailkind"] = r.choice(("optional", "star"))
+        tail = 'optional { "#"; }' if spec["tailkind"] == "optional" else "/#*/;"
+        L = ["out int{size 2} n = 0;", "hook he;", "", "parser {", "    %s;" % esc(pre), "    case {", "        end -> { n = 1; he(); }",
+             '        "\\n" -> { n = 2; }', "    }", "    " + tail, "}"]
+        spec["source"] = "\n".join(L) + "\n"
+        spec["need"] = ["-feof-support"]
+        return spec
     if shape in ("tryend", "waitend"):
         lit = [r.choice(LET)] + [r.choice(LET + DIG) for _ in range(r.choice((1, 2, 3)))]
         spec["lit"] = lit
@@ -856,6 +1019,9 @@ def gen_f3(rng):
 
 def f3_inputs(rng, spec, count):
     res = []
+    if spec["shape"] == "endopt":
+        pre = bytes(spec["pre"])
+        return [pre, pre + b"\n", pre + b"\n#", pre[:1] if len(pre) > 1 else b"", pre + b"x", pre + b"\n##"]
     if spec["shape"] in ("tryend", "waitend"):
         lit = bytes(spec["lit"])
         res = [lit, lit[:-1], lit[:1], b"", lit[:-1] + b"\xff", lit[:1] + b"zz", lit + b"q", b"\xff", lit[:-1] + bytes([lit[-1] ^ 1]) + b"ab"]
@@ -923,6 +1089,23 @@ def check_f3(spec, data, canon, flags):
         code = group[-1].code
         hooks = [e[0] for c in group for e in c.events]
         snap = group[-1].snap
+        if spec["shape"] == "endopt":
+            p = bytes(spec["pre"])
+            nval = [x.split("=")[1] for x in snap.split(";") if x.startswith("n=")]
+            nval = int(nval[0]) if nval else None
+            if pre == p:
+                if code != "DONE" or hooks != ["he"] or nval != 1:
+                    F("end-pattern-before-nullable-tail", "end() right after %s: code %s hooks %s n=%s (expected DONE, [he], n=1)" % (p.hex(), code, hooks, nval))
+                    return out
+            elif pre == p + b"\n":
+                if code != "DONE" or hooks or nval != 2:
+                    F("end-in-accept-state-with-live-transitions", "end() after the newline clause (the nullable tail may match nothing): code %s hooks %s n=%s (expected DONE, n=2)" % (code, hooks, nval))
+                    return out
+            elif len(pre) < len(p) and p.startswith(pre):
+                if code != "FAIL":
+                    F("end-inside-literal", "end() inside the leading literal returned %s" % code)
+                    return out
+            continue
         if spec["shape"] in ("tryend", "waitend"):
             lit = bytes(spec["lit"])
             nval = [x.split("=")[1] for x in snap.split(";") if x.startswith("n=")]
@@ -1017,6 +1200,8 @@ def check_canon(fam, data, canon, flags):
         return check_f3(fam, data, canon, flags)
     if name == "F5":
         return check_f5(fam, data, canon, flags)
+    if name == "F6":
+        return check_f6(fam, data, canon, flags)
     return []
 
 
@@ -1027,7 +1212,7 @@ FAMILY_SCALE = {"C04": 0.25, "C02": 0.4}
 def family_tasks(prop, tier, root):
     n = int(FAMILY_TIER[tier] * FAMILY_SCALE.get(prop, 1.0))
     tasks = []
-    mix = {"C10": ("F1", "F1", "F2", "F2", "F5"), "C17": ("F1", "F3", "F3", "F1"), "C03": ("F1", "F1", "F5"),
+    mix = {"C10": ("F1", "F1", "F2", "F2", "F5"), "C17": ("F1", "F3", "F3", "F1"), "C03": ("F1", "F6", "F5", "F6"),
            "C04": ("F5",), "C02": ("F5", "F1")}[prop]
     plan = {"n_inputs": 0, "maxlen": 64, "n_sched": 3, "exhaustive_n": 5, "n_multi": 1, "single_cuts": tier == "thorough",
             "faults": ["cut", "retail", "reloc", "ystop", "eof", "post", "zero"], "want": ["L2", "LAWS"]}
@@ -1049,6 +1234,9 @@ def family_tasks(prop, tier, root):
         elif fam == "F5":
             spec = gen_f5(rng)
             xs = f5_inputs(rng, spec, 8)
+        elif fam == "F6":
+            spec = gen_f6(rng)
+            xs = f6_inputs(rng, spec, 8)
         else:
             spec = gen_f3(rng)
             xs = f3_inputs(rng, spec, 8)
@@ -1065,7 +1253,10 @@ def family_tasks(prop, tier, root):
         canaries = {o["name"]: 90 for o in spec.get("outputs", []) if o.get("canary")}
         unit = {"label": "%s:%d" % (fam, idx), "source": spec["source"], "argv": argv, "must_inputs": [x.hex() for x in xs],
                 "family": {k: v for k, v in spec.items() if k != "source"}, "canaries": canaries}
-        tasks.append(("sim", root, idx, unit, plan))
+        uplan = plan
+        if fam == "F6":
+            uplan = dict(plan, maxlen=320, n_sched=2, single_cuts=False, exhaustive_n=3)
+        tasks.append(("sim", root, idx, unit, uplan))
     return tasks
 
 
@@ -1170,3 +1361,81 @@ def f5_inputs(rng, spec, count):
     res.append(bytes(rng.randint(lo, hi) for _ in range(spec["c1"] + 1)) + b"!" + bytes([lo]))
     res.append(b"!")
     return res[:max(count, 8)]
+
+
+# =====================================================================================
+# F6 "fill": capacity boundaries at integer-width edges (counter widths, terminators)
+# =====================================================================================
+
+F6_SIZES = (2, 3, 5, 127, 128, 129, 255, 256, 257, 300)
+
+
+def gen_f6(rng):
+    r = rng
+    size = r.choice(F6_SIZES)
+    unterm = r.random() < 0.5
+    variant = r.choice(("match", "match", "char", "plus"))
+    cap = size if unterm else size - 1
+    spec = {"family": "F6", "size": size, "unterm": unterm, "cap": cap, "variant": variant}
+    L = ["out %sstr[%d] s0;" % ("unterminated " if unterm else "", size), "out int{size 1} zc0 = 90;", "hook hfull;", "finishcode TOO;", "",
+         "parser {"]
+    if variant == "plus":
+        L += ["    try {", "        s0 += /[a-z]+/;", "        \";\";", "    }", "    catch (outofspace) {", "        hfull();", "        finish TOO;", "    }"]
+    else:
+        L += ["    loop {", "        try {"]
+        L += ["            s0 += /[a-z]/;"] if variant == "match" else ["            /[a-z]/;", "            s0 += [$last];"]
+        L += ["        }", "        catch (outofspace) {", "            hfull();", "            finish TOO;", "        }", "    }"]
+    L.append("}")
+    spec["source"] = "\n".join(L) + "\n"
+    spec["need"] = []
+    spec["outputs"] = [{"name": "s0", "type": "STR"}, {"name": "zc0", "type": "INT", "canary": True}]
+    return spec
+
+
+def check_f6(spec, data, canon, flags):
+    cap = spec["cap"]
+    ev = []
+    terminal = None
+    snapf = lambda bs: "s0=%d:%s;zc0=90" % (len(bs), bytes(bs).hex())
+    stored = bytearray()
+    pos = 0
+    while pos < len(data):
+        b = data[pos]
+        if not (97 <= b <= 122):
+            if spec["variant"] == "plus" and b == 59 and stored:
+                terminal = ("DONE", pos + 1)
+            else:
+                terminal = ("FAIL", pos)
+            break
+        if len(stored) >= cap:
+            ev.append({"kind": "hook", "name": "hfull", "k": pos + (1 if spec["variant"] == "char" else 0), "snap": snapf(stored), "opt": False, "taint": False})
+            terminal = ("FINISH_TOO", pos + (1 if spec["variant"] == "char" else 0))
+            break
+        stored.append(b)
+        pos += 1
+    out, obs = compare_model_trace(ev, terminal, False, canon, data, flags, "F6")
+    if out:
+        return out
+    # the outputs after every consumed byte: length counter == bytes stored, contents intact
+    exp = bytearray()
+    for st in canon.steps:
+        if st.cls != "OK":
+            break
+        if st.i < len(data) and 97 <= data[st.i] <= 122 and len(exp) < cap:
+            exp.append(data[st.i])
+        if st.snap != snapf(exp):
+            out.append(oracles.V("F6", "length-or-contents", -1, 0, "after byte %d (capacity %d): model %s... parser %s..." % (
+                st.i, cap, snapf(exp)[:40], st.snap[:40])))
+            return out
+    return out
+
+
+def f6_inputs(rng, spec, count):
+    cap = spec["cap"]
+    res = []
+    for n in (cap - 1, cap, cap + 1, cap + 3):
+        if n >= 0:
+            x = bytes(rng.choice(LET) for _ in range(n))
+            res.append(x + (b";" if spec["variant"] == "plus" else b""))
+    res.append(bytes(rng.choice(LET) for _ in range(min(cap, 3))) + b"!")
+    return res
